@@ -168,7 +168,16 @@ int main(int argc, char **argv) {
     Topology &top = reuse ? *persistent : fresh;
     R.counter(reuse ? "boxes_set_on_reused_topology" : "boxes_set_on_fresh_topology");
     Box Bcode = B;
-    if (explicit_mode == 1) {
+    // an open box may be chosen explicitly for a topology that carries a cell all the same (Topology::setBox(box,
+    // typeOpen); the DL_POLY reader does it for imcon=0): the connection is still the plain difference
+    bool open_with_cell = kind == 0 && rng.coin(0.5);
+    if (open_with_cell) {
+      Box C = gen_box(rng, rng.coin() ? 1 : 2);
+      if (rng.coin(0.3)) C.m(2, 2) = 0;  // slab-like cell
+      B.m = C.m;
+      top.setBox(B.m, BoundaryCondition::typeOpen);
+      R.counter("open_boxes_chosen_explicitly_for_a_nonzero_cell");
+    } else if (explicit_mode == 1) {
       top.setBox(B.m, kind == 0 ? BoundaryCondition::typeOpen : kind == 1 ? BoundaryCondition::typeOrthorhombic : BoundaryCondition::typeTriclinic);
     } else if (explicit_mode == 2 && kind == 1) {
       top.setBox(B.m, BoundaryCondition::typeTriclinic);
@@ -195,7 +204,8 @@ int main(int argc, char **argv) {
     } else {
       R.eval("volume_height");
       double v = top.BoxVolume();
-      if (v != 0.0) R.violation("volume/open", "open box volume not 0", J().d("got", v));
+      // (an explicitly open box keeps the cell it was given: its volume is that of the cell, not judged here)
+      if (!open_with_cell && v != 0.0) R.violation("volume/open", "open box volume not 0", J().d("got", v));
     }
     LD minedge = kind ? std::min((LD)B.m(0, 0), std::min((LD)B.m(1, 1), (LD)B.m(2, 2))) : 0;
     LD bmax = B.m.cwiseAbs().maxCoeff();
